@@ -30,6 +30,7 @@ ASSUMPTIONS = [
 BUDGET = {'quick': {'examples': 900}, 'thorough': {'examples': 8000, 'shards': 16}}
 TYPE_OWN = '_http._tcp.local.'
 TYPE_B = '_b._tcp.local.'
+LOOKUP_NAME = 'peer0.' + TYPE_B     # an instance the stream talks about (its SRV may name an odd host): the lookup must survive that
 OWN = {'type': TYPE_OWN, 'name': 'victim.' + TYPE_OWN, 'port': 8080, 'server': 'victim.local.', 'addrs': ['10.0.0.1', 'fe80::1'], 'props': '0161'}
 HOSTILE_LABELS = ['ff' * 40, 'ff' * 22, 'c3' * 63, '2e2e2e', '00', 'e2' * 30, '41' * 63, 'f0' * 16 + '80' * 16]
 
@@ -45,14 +46,24 @@ def hostile_query(draw) -> Dict[str, Any]:
 
 valid_query = st.fixed_dictionaries({'src': st.just('vquery'), 'what': st.sampled_from(['ptr', 'srv', 'addr', 'enum']),
                                      'qu': st.booleans(), 'tc': st.sampled_from([False, False, True])})
-valid_resp = st.fixed_dictionaries({'src': st.just('vresp'), 'inst': st.integers(0, 3), 'ttl': st.sampled_from([0, 1, 120, 4500]),
-                                    'flush': st.booleans(), 'repeat': st.sampled_from([0, 0, 1, 2]), 'recase': st.booleans()})
+valid_resp = st.fixed_dictionaries({'src': st.just('vresp'), 'inst': st.sampled_from([0, 0, 0, 1, 1, 2, 3]),
+                                    'ttl': st.sampled_from([0, 0, 1, 120, 4500, 4500]), 'flush': st.booleans(),
+                                    'repeat': st.sampled_from([0, 0, 1, 2, 2]), 'recase': st.sampled_from([False, False, True])})
+
+
+@st.composite
+def hostile_resp(draw) -> Dict[str, Any]:
+    """A response about the browsed type (or the host's own names) whose record data carries odd-but-parsable labels: pointer
+    targets, SRV targets and owner names that the instance will cache and later has to re-encode (known answers, echoes)."""
+    return {'src': 'hresp', 'labels': draw(st.lists(st.sampled_from(HOSTILE_LABELS), min_size=1, max_size=2)),
+            'where': draw(st.sampled_from(['ptr-target', 'ptr-target', 'srv-target', 'srv-owner', 'a-owner'])),
+            'ttl': draw(st.sampled_from([4500, 4500, 120, 1])), 'type_own': draw(st.sampled_from([False, False, True]))}
 
 
 @st.composite
 def item(draw) -> Dict[str, Any]:
     d = draw(st.one_of(c02.msg_case(True), c02.msg_case(True), c02.msg_case(False), c02.graph_case(), hostile_query(), hostile_query(),
-                       valid_query, valid_resp,
+                       valid_query, valid_resp, valid_resp, hostile_resp(),
                        st.builds(lambda n, s: {'src': 'rand', 'len': n, 'seed': s, 'hdr': 'sane'}, st.integers(0, 300), st.integers(0, 2**32))))
     # gaps include hours: timers armed by earlier datagrams (refresh schedules, purges, queues) must survive too
     return {'d': d, 'gap': draw(st.sampled_from([0, 0, 1, 50, 500, 1100, 5000, 5000, 850000, 1130000, 3400000, 4600000])), 'port': draw(st.sampled_from([5353, 5353, 40001, 1])),
@@ -81,6 +92,36 @@ def build(d: Dict[str, Any]) -> bytes:
     if src == 'vquery':
         q = {'ptr': (TYPE_OWN, 12), 'srv': (OWN['name'], 33), 'addr': (OWN['server'], 1), 'enum': (rp.ENUM, 12)}[d['what']]
         return rp.build_query([(q[0], q[1], d['qu'])], [], qid=7, tc=d['tc'])
+    if src == 'hresp':
+        t = TYPE_OWN if d['type_own'] else TYPE_B
+        odd = [('l', bytes.fromhex(l)) for l in d['labels']]
+        tl = [('l', x.encode()) for x in t.rstrip('.').split('.')] + [('end',)]
+        inst = [('l', b'peer0')] + tl
+        body = wire.Encoder()
+
+        def rr(owner, rtype, ttl, rdata_parts) -> None:
+            body.raw_name(owner)
+            body.buf += bytes([0, rtype, 0, 1]) + ttl.to_bytes(4, 'big')
+            pos = len(body.buf)
+            body.buf += b'\x00\x00'
+            for part in rdata_parts:
+                if isinstance(part, bytes):
+                    body.buf += part
+                else:
+                    body.raw_name(part)
+            body.buf[pos:pos + 2] = (len(body.buf) - pos - 2).to_bytes(2, 'big')
+
+        n = 0
+        if d['where'] == 'ptr-target':
+            rr(tl, 12, d['ttl'], [odd + tl]); n += 1
+        elif d['where'] == 'srv-target':
+            rr(tl, 12, d['ttl'], [inst]); n += 1
+            rr(inst, 33, min(d['ttl'], 120), [bytes([0, 0, 0, 0, 0, 99]), odd + [('l', b'local'), ('end',)]]); n += 1
+        elif d['where'] == 'srv-owner':
+            rr(odd + tl, 33, min(d['ttl'], 120), [bytes([0, 0, 0, 0, 0, 99]), [('l', b'peerhost'), ('l', b'local'), ('end',)]]); n += 1
+        else:
+            rr(odd + [('l', b'local'), ('end',)], 1, min(d['ttl'], 120), [bytes([10, 0, 0, 9])]); n += 1
+        return body.finish(0, 0x8400, (0, n, 0, 0))
     if src == 'vresp':
         name = f'peer{d["inst"]}.{TYPE_B}'
         rrs = [rp.wire_rr_of_ident(('PTR', TYPE_B, name), d['ttl']),
@@ -123,7 +164,7 @@ class Exec:
         self.lst = lst
         self.browser = AsyncServiceBrowser(v.zc, TYPE_B, listener=lst)
         await asyncio.sleep(1.5)
-        self.lookup = asyncio.ensure_future(AsyncServiceInfo(TYPE_B, 'ghost.' + TYPE_B).async_request(v.zc, 10000))
+        self.lookup = asyncio.ensure_future(AsyncServiceInfo(TYPE_B, LOOKUP_NAME).async_request(v.zc, 10000))
         rnd = random.Random(case['seed'])
         for it in case['stream']:
             if it['gap']:
@@ -197,6 +238,18 @@ class Exec:
         ep.proto.datagram_received(data, src3)
         await asyncio.sleep(0.01)
         self.canary['added'] = [e for e in lst.events[n_ev:] if e['kind'] == 'add' and e['name'].lower().startswith('canary-instance.')]
+        # every instance the stream talked about is announced again, well-formed and alone: the browser must then report it
+        used = sorted({it['d']['inst'] for it in case['stream'] if it['d'].get('src') == 'vresp'})
+        for k in used:
+            await asyncio.sleep(1.5)
+            name = f'peer{k}.{TYPE_B}'
+            ann = wire.encode({'id': 0, 'flags': 0x8400, 'qd': [], 'an': [
+                rp.wire_rr_of_ident(('PTR', TYPE_B, name), 4500),
+                rp.wire_rr_of_ident(('SRV', name, 0, 0, 99, 'peerhost.local.'), 120, flush=True)], 'ns': [], 'ar': []})
+            ep.proto.datagram_received(ann, src3)
+        await asyncio.sleep(0.01)
+        live = lst.live().get(TYPE_B, set())
+        self.canary['reannounced_missing'] = [f'peer{k}.{TYPE_B}' for k in used if f'peer{k}.{TYPE_B}' not in live]
         await asyncio.sleep(11.0)
         # everything armed by the stream has fired by now (refresh schedules run at 75-95 % of up to 4500 s)
         await asyncio.sleep(4600.0)
@@ -234,6 +287,10 @@ def check(case: Dict[str, Any]) -> Dict[str, Any]:
                         {'multicasts': len(ex.canary['qm'])}, tag='canary-qm')
     if not ex.canary['added']:
         raise Violation('after the stream an announcement no longer reaches the browser', None, tag='canary-browser')
+    if ex.canary.get('reannounced_missing'):
+        raise Violation('an instance the stream had mentioned was announced again (well-formed, alone) after the stream and the browser '
+                        'does not report it', {'instances': ex.canary['reannounced_missing'],
+                                               'callbacks': [(e['kind'], e['name']) for e in ex.lst.events][-8:]}, tag='canary-reannounce')
     if ex.lookup_state[0] != 'done' or ex.lookup_state[1] is not None:
         raise Violation('the lookup in progress died or hung', {'state': str(ex.lookup_state)}, tag='lookup-died')
     task = ex.browser._query_sender_task
